@@ -15,6 +15,7 @@ from pyvc.values import VDict, VSet, VTuple, VList, SV
 from pyvc.engine import fresh_val, fresh, Event, Unsupported, PyRaise
 from pyvc.repo import ExternalRef
 import pyvc.z as Z
+from pyvc.contracts import ListView as _ListView, DictView as _DictView
 
 PM = "cobald.interfaces._partial"
 S = z3.StringVal
@@ -39,7 +40,8 @@ def _ctor_after(c, ctx, outcome, value, self, **rest):
 
 
 ctor_call = amethod("constructor", {"self": None, "*args": None, "**kw": None}, doc="an arbitrary constructor: any result, any exception", result=ANYT,
-                    emits=_ctor_emits, emits_after=_ctor_after, has_events=True, raises={"BaseException": lambda c, exc, **k: True})
+                    emits=_ctor_emits, emits_after=_ctor_after, has_events=True, raises={"BaseException": lambda c, exc, **k: True},
+                    ensures=lambda c, result, **k: {"hypothesis-a-constructor-returns-an-object-not-None": c.Not(Z.is_none(result.t))})
 Ctor = TFn(ctor_call)
 ctor_call.params["self"] = Ctor
 PartialT.fields["ctor"] = Ctor
@@ -52,7 +54,7 @@ def _bound_after(c, ctx, outcome, value, self, other):
 
 
 _tmpl_rshift = amethod("template.__rshift__", {"self": None, "other": ANYT}, doc="a pending template / bind applied to a target: `bound(template, target, result)`; any outcome",
-                       result=ANYT, emits_after=_bound_after, has_events=True, raises={"BaseException": lambda c, exc, **k: True})
+                       result=ANYT, ensures=lambda c, result, **k: {"never-None": c.Not(Z.is_none(result.t))}, emits_after=_bound_after, has_events=True, raises={"BaseException": lambda c, exc, **k: True})
 Tmpl = TAbs("template", fields={}, methods={"__rshift__": _tmpl_rshift}, events=False)
 Tmpl.not_isa = ["cobald.interfaces._pool:Pool"]
 _tmpl_rshift.params["self"] = Tmpl
@@ -82,6 +84,9 @@ class construct_interface:
         ctx.emit("constructed" if outcome == "return" else "construct-failed", self, value)
         ctx.ghost.setdefault("c04_construct_outcomes", []).append((outcome, value))
 
+    def ensures(c, self, result, **k):
+        return {"never-None": c.Not(Z.is_none(result.t))}
+
     raises = {"BaseException": lambda c, exc, **k: True}
 
 
@@ -92,6 +97,7 @@ class partial_rshift_interface:
     has_events = True
     skip_body = True
     emits_after = staticmethod(_bound_after)
+    ensures = staticmethod(lambda c, self, other, result: {"never-None": c.Not(Z.is_none(result.t))})
     raises = {"BaseException": lambda c, exc, **k: True}
 
 
@@ -102,6 +108,7 @@ class bind_rshift_interface:
     has_events = True
     skip_body = True
     emits_after = staticmethod(_bound_after)
+    ensures = staticmethod(lambda c, self, other, result: {"never-None": c.Not(Z.is_none(result.t))})
     raises = {"BaseException": lambda c, exc, **k: True}
 
 
@@ -127,6 +134,8 @@ def _field(ctx, view, name):
 def _tm(ctx, x):
     if z3.is_expr(x):
         return x
+    if isinstance(x, (_ListView, _DictView)):
+        return ctx.to_val(x.raw).t          # a display seen through a spec view: its own (interned) identity
     return x.t if hasattr(x, "t") else ctx.to_val(x).t
 
 
@@ -188,6 +197,7 @@ def _mk_construct(nself, selfkw, ncall, callkw):
             outs = c.ctx.ghost.get("c04_ctor_outcomes", [])
             return {"exactly-one-constructor-call-target-first-then-stored-arguments": shape._one_call(c, self, args, kwargs),
                     "nothing-else-happens": c.n_events() == 2,
+                    "never-None": c.Not(Z.is_none(result.t)),
                     "the-result-is-the-constructors": (result.t == _t(outs[0][1])) if len(outs) == 1 else False,
                     "the-template-is-not-modified": c.unchanged(self, "args", "kwargs", "ctor", "leaf")}
 
@@ -264,6 +274,18 @@ def _is_new_bind(c, result, parent_t, target_terms):
     return c.And(rv.cls_is(PM + ":PartialBind"), Z.Val.id(result.t) >= ctx.alloc0, p == parent_t, *[_tm(ctx, a) == b for a, b in zip(ts, target_terms)])
 
 
+def _never_none(shape):
+    """add the interface's own postcondition (the result is an object, never None) to a shape's proof obligations"""
+    inner = shape.ensures
+
+    def ensures(c, self, other, result):
+        out = dict(inner(c, self, other, result))
+        out["never-None"] = c.Not(Z.is_none(result.t))
+        return out
+    shape.ensures = ensures
+    return shape
+
+
 def _mk_partial_rshift(kind, k=0):
     other_ty = {"bind": BindT, "leaf": PartialT, "pending": PartialT, "pool": PoolObj, "object": OtherObj}[kind]
 
@@ -320,7 +342,7 @@ def _mk_partial_rshift(kind, k=0):
 
 
 for _kind, _k in [("bind", 1), ("bind", 2), ("bind", 3), ("leaf", 0), ("pending", 0), ("pool", 0), ("object", 0)]:
-    contract(PM + ":Partial.__rshift__#other=%s%s" % (_kind, "(%d)" % _k if _kind == "bind" else ""), props=["C04"])(_mk_partial_rshift(_kind, _k))
+    contract(PM + ":Partial.__rshift__#other=%s%s" % (_kind, "(%d)" % _k if _kind == "bind" else ""), props=["C04"])(_never_none(_mk_partial_rshift(_kind, _k)))
 
 
 def _mk_bind_rshift(kind, k):
@@ -401,7 +423,7 @@ def _mk_bind_rshift(kind, k):
 
 
 for _kind, _k in [("pool", 1), ("pool", 2), ("pool", 3), ("leaf", 2), ("pending", 1), ("pending", 3), ("bind", 2), ("object", 1)]:
-    contract(PM + ":PartialBind.__rshift__#targets(%d)>>%s" % (_k, _kind), props=["C04"])(_mk_bind_rshift(_kind, _k))
+    contract(PM + ":PartialBind.__rshift__#targets(%d)>>%s" % (_k, _kind), props=["C04"])(_never_none(_mk_bind_rshift(_kind, _k)))
 
 
 # ---- signature check -----------------------------------------------------------------------------------------------------------
